@@ -19,14 +19,15 @@ BoxCovers(e) == LET d2max == Max({Norm2(VSub(e.pos[a], e.pos[b])) : a \in 1..Len
 EdgesZ(e) == EdgesOf(e.cell, e.pbc, e.pos, e.thr2x2, e.Kb)
 EdgesL(e) == Sym({<<e.edges[k][1], e.edges[k][2], <<e.edges[k][3], e.edges[k][4], e.edges[k][5]>>>> : k \in 1..Len(e.edges)})
 
-Judge(e, E) == LET atoms == 1..e.n
-                   want == DefDim(E, atoms)
-                   comps == Components(E, atoms)
-                   got == {ToSetS(e.clusters[k]) : k \in 1..Len(e.clusters)}
-               IN IF got # comps THEN "ComponentsOfBondingGraph"
-                  ELSE IF (want = None) # (e.dim = None) THEN "NoneIffDisconnected"
-                  ELSE IF e.dim # want THEN "DimIsRankOfCycleLattice"
-                  ELSE "ok"
+JudgeV(e, E) == LET atoms == 1..e.n
+                    got == {ToSetS(e.clusters[k]) : k \in 1..Len(e.clusters)}
+                IN Only({ IF got # comps THEN "ComponentsOfBondingGraph"
+                          ELSE Only({ IF (want = None) # (e.dim = None) THEN "NoneIffDisconnected"
+                                      ELSE IF e.dim # want THEN "DimIsRankOfCycleLattice" ELSE "ok"
+                                      : want \in {DefDim(E, atoms)} })
+                          : comps \in {Components(E, atoms)} })
+\* the edge set is bound once (singleton-set binding), not re-evaluated at every use
+Judge(e, E0) == Only({JudgeV(e, E) : E \in {E0}})
 Verdict(e) == CASE e.ev = "zdim" -> IF ~BoxCovers(e) THEN "HARNESS-BoxCovers" ELSE Judge(e, EdgesZ(e))
                 [] e.ev = "edim" -> Judge(e, EdgesL(e))
                 [] OTHER -> "HARNESS-unknown-event"
